@@ -35,7 +35,7 @@ pub struct Case {
     pub nontrivial: bool,
 }
 
-pub const BASES: [&str; 12] = ["bit", "bitw", "int", "intw", "uintw", "floatw", "float", "anglew", "complexw", "complex", "bool", "duration"];
+pub const BASES: [&str; 15] = ["bit", "bitw", "int", "intw", "uintw", "floatw", "float", "anglew", "complexw", "complex", "bool", "duration", "stretch", "uint", "angle"];
 
 /// Source spelling and recorded type of base `b` with width `w` and const flag `c`.
 pub fn spell(b: &str, w: u32, c: bool) -> (String, Type) {
@@ -53,6 +53,8 @@ pub fn spell(b: &str, w: u32, c: bool) -> (String, Type) {
         "complex" => ("complex".into(), Type::Complex(None, k)),
         "bool" => ("bool".into(), Type::Bool(k)),
         "stretch" => ("stretch".into(), Type::Stretch(k)),
+        "uint" => ("uint".into(), Type::UInt(None, k)),
+        "angle" => ("angle".into(), Type::Angle(None, k)),
         _ => ("duration".into(), Type::Duration(k)),
     }
 }
@@ -68,7 +70,8 @@ fn init_for(b: &str) -> &'static str {
         "float" | "floatw" | "anglew" => "0.5",
         "complexw" | "complex" => "2.0im",
         "bool" => "true",
-        "duration" => "10ns",
+        "duration" | "stretch" => "10ns",
+        "angle" => "0.5",
         _ => "1",
     }
 }
